@@ -26,7 +26,7 @@ def check(prog, run):
     run.rule("O-hom", "no degree-mixing operation / dimensional arccos argument inside the indicator functions", 1)
     run.rule("R-domain", "every arccos/arcsin argument is bounded by clip/minimum/maximum; every sqrt argument is a sum of squares or a magnitude; "
              "a quotient by a per-component magnitude is guarded against 0/0", 3)
-    run.rule("R-mac-shape", "MAC: product conj(first).T @ second; entry [i, j] normalised with column i of the first and column j of the second set", 3)
+    run.rule("R-mac-shape", "MAC: product conj(first).T @ second; entry [i, j] normalised with column i of the first and column j of the second set", 2)
     I = Interp(prog)
     seen = set()
     one = {
@@ -234,11 +234,49 @@ def mac_shape(prog, run, fi):
                    "each set is indexed with its own loop variable" if not bad else f"{bad} indexed with the other set's loop variable",
                    witness=";".join(bad), file=f, node=st)
     if not checked:
-        run.ob("R-mac-shape", fi.qual, "entry indices", None, "normalisation loop `M[i, j] = ...` over both sets not found", file=f)
+        # vectorised normalisation:  |X^H A|^2 / outer(u, v)   (or u[:, None] * v[None, :]) - rows belong to the first set, so u must be its norms
+        def prov(e):
+            return {n_.id for n_ in ast.walk(e) if isinstance(n_, ast.Name)} & {p0, p1}
+        vec = 0
+        for dv in ast.walk(fi.node):
+            if not (isinstance(dv, ast.BinOp) and isinstance(dv.op, ast.Div)):
+                continue
+            den = astq.expr_at(fi, dv, dv.right, keep=(p0, p1))
+            numr = astq.expr_at(fi, dv, dv.left, keep=(p0, p1))
+            if not ({p0, p1} <= {n_.id for n_ in ast.walk(numr) if isinstance(n_, ast.Name)}):
+                continue
+            u = v = None
+            if isinstance(den, ast.Call) and astq.callee_name(prog, fi, den) in ("numpy.outer", "numpy.multiply.outer") and len(den.args) == 2:
+                u, v = den.args
+            elif isinstance(den, ast.BinOp) and isinstance(den.op, ast.Mult):
+                def bc(e):
+                    """(base, 'col' | 'row') for e[:, None] / e[None, :]"""
+                    if isinstance(e, ast.Subscript) and len(astq.index_elts(e)) == 2:
+                        a_, b_ = astq.index_elts(e)
+                        isn = lambda z: (isinstance(z, ast.Constant) and z.value is None) or astq.src(z).endswith("newaxis")
+                        if astq.is_full_slice(a_) and isn(b_):
+                            return e.value, "col"
+                        if isn(a_) and astq.is_full_slice(b_):
+                            return e.value, "row"
+                    return None
+                l_, r_ = bc(den.left), bc(den.right)
+                if l_ and r_ and {l_[1], r_[1]} == {"col", "row"}:
+                    u, v = (l_[0], r_[0]) if l_[1] == "col" else (r_[0], l_[0])
+            if u is None:
+                continue
+            vec += 1
+            pu, pv = prov(u), prov(v)
+            ok = (pu == {p0} and pv == {p1}) if (len(pu) == 1 and len(pv) == 1) else None
+            run.ob("R-mac-shape", fi.qual, "entry indices", ok, f"normaliser `{astq.src(den, 70)}`: row factor from {sorted(pu)}, column factor from {sorted(pv)} (rows belong to {p0}, columns to {p1})",
+                   witness=f"{sorted(pu)},{sorted(pv)}", file=f, node=dv)
+        if not vec:
+            run.ob("R-mac-shape", fi.qual, "entry indices", None, "normalisation (loop `M[i, j] = ...` or outer product of the two norm vectors) not found", file=f)
 
 
 G = "functions.gen"
 MUTANTS = [
+    ("C18-m11 vectorised normalisation with the two norm vectors swapped", G, "MAC", "for i in range(phi_X.shape[1]):\n    for j in range(phi_A.shape[1]):\n        MAC[i, j] = MAC[i, j] / (np.conj(phi_X[:, i]) @ phi_X[:, i] * np.conj(phi_A[:, j]) @ phi_A[:, j])",
+     "MAC = MAC / np.outer(np.sum(np.abs(phi_A) ** 2, axis=0), np.sum(np.abs(phi_X) ** 2, axis=0))"),
     ("C18-m01 arccos argument not clipped", G, "MPD", "np.arccos(np.clip(ratio, 0.0, 1.0))", "np.arccos(ratio)"),
     ("C18-m02 plain division by the component magnitudes", G, "MPD", "np.divide(np.abs(num), den, out=np.ones_like(den), where=den > 0)", "np.abs(num) / den"),
     ("C18-m03 MAC normalised by the first set only", G, "MAC", "np.conj(phi_X[:, i]) @ phi_X[:, i] * np.conj(phi_A[:, j]) @ phi_A[:, j]", "np.conj(phi_X[:, i]) @ phi_X[:, i]"),
@@ -253,6 +291,8 @@ MUTANTS = [
 MUTANTS = [m for m in MUTANTS if m[4] != ""]
 MUTANTS.append(("C18-m09 MPD weights not normalised", G, "MPD", "MPD = np.sum(w * np.arccos(np.clip(ratio, 0.0, 1.0))) / np.sum(w)", "MPD = np.sum(w * np.arccos(np.clip(ratio, 0.0, 1.0)))"))
 REWRITES = [
+    ("C18-r05 vectorised normalisation (outer product of the column norms)", G, "MAC", "for i in range(phi_X.shape[1]):\n    for j in range(phi_A.shape[1]):\n        MAC[i, j] = MAC[i, j] / (np.conj(phi_X[:, i]) @ phi_X[:, i] * np.conj(phi_A[:, j]) @ phi_A[:, j])",
+     "MAC = MAC / np.outer(np.sum(np.abs(phi_X) ** 2, axis=0), np.sum(np.abs(phi_A) ** 2, axis=0))"),
     ("rename:C18-r01", G, "MPD", "ratio", "cosang"),
     ("C18-r02 minimum instead of clip", G, "MPD", "np.clip(ratio, 0.0, 1.0)", "np.minimum(ratio, 1.0)"),
     ("C18-r03 where-guarded quotient", G, "MPD", "np.divide(np.abs(num), den, out=np.ones_like(den), where=den > 0)", "np.where(den > 0, np.abs(num) / np.where(den > 0, den, 1.0), 1.0)"),
